@@ -55,6 +55,12 @@ class InProcMonitor(pp.TransferMonitor):
         s.emit('pp.job_complete', tid=transfer_id)
         return super().notify_job_complete(transfer_id)
 
+    def notify_cancel_all_in_progress(self):
+        # (observation) which downloads are unfinished at the moment the Ctrl-C handler cancels
+        s = detsched.active()
+        s.emit('pp.cancel_all', undone=[tid for tid, st in self._transfer_states.items() if not st.done])
+        return super().notify_cancel_all_in_progress()
+
 
 class InProcManager:
     def start(self, *a, **k):
@@ -212,6 +218,14 @@ def run_pp(cfg, prefix, scratch):
                     submit_all()
                     s.point('user.body', 'with')
                     raise KeyboardInterrupt()
+            elif script == 'with_result0_kbd':
+                # the first download is waited for, then Ctrl-C leaves the block: a mix of
+                # finished and unfinished downloads at the moment of the interrupt
+                with d:
+                    submit_all()
+                    collect(0)
+                    s.point('user.body', 'with')
+                    raise KeyboardInterrupt()
             elif script == 'shutdown':
                 submit_all()
                 d.shutdown()
@@ -274,7 +288,7 @@ def judge(w):
         for i, dn in enumerate(sh[3]['done']):
             if not dn:
                 out.append(('C19:not-done-after-shutdown', f'download {i} is not done although shutdown / with-exit returned'))
-    kbd_in_with = any(e[2] == 'user.kbd' and e[3]['where'] == 'with' for e in log) and cfg.get('script') == 'with_kbd'
+    kbd_in_with = any(e[2] == 'user.kbd' and e[3]['where'] == 'with' for e in log) and cfg.get('script') in ('with_kbd', 'with_result0_kbd')
     for i, f in enumerate(w.futures):
         tid = f.meta.transfer_id
         done_steps = [e[0] for e in log if e[2] == 'pp.done' and e[3]['tid'] == tid]
@@ -316,9 +330,13 @@ def judge(w):
             was_done = False
             inj = [e for e in log if e[2] == 'user.kbd']
             if oc and oc[0] == 'ok':
-                # finished before the Ctrl-C: acceptable only if done preceded it
-                if done_steps and inj and done_steps[0] > inj[0][0]:
-                    out.append(('C19:ctrlc-did-not-cancel', f'download {i} succeeded although it was unfinished when Ctrl-C left the with-block'))
+                # finished before the Ctrl-C: acceptable only if it was done when the
+                # with-exit cancelled the unfinished downloads
+                ca = [e for e in log if e[2] == 'pp.cancel_all']
+                if ca and tid in ca[0][3]['undone']:
+                    out.append(('C19:ctrlc-did-not-cancel',
+                                f'download {i} succeeded although it was unfinished when Ctrl-C left the with-block '
+                                f'(unfinished at that moment: transfer ids {ca[0][3]["undone"]})'))
             elif oc and not isinstance(oc[1], CancelledError):
                 out.append(('C19:ctrlc-wrong-error', f'download {i}: {oc[1]!r}'))
     if getattr(w, 'fs_violation', None):
@@ -404,6 +422,10 @@ def jobs(tier):
                     'bound': {'inject': 1, 'env': 1, 'sched': 0 if q else 1}})
         out.append({'name': f'with-kbd {name}', 'cfg': dict(base, script='with_kbd'), 'bound': PL})
         out.append({'name': f'ctrlc-at-result {name}', 'cfg': dict(base, inject=[{'kind': 'ctrlc'}]), 'bound': CA})
+    for workers, dls in ((1, [dict(size=3), dict(size=5)]), (2, [dict(size=3), dict(size=7)]), (2, [dict(size=5), dict(size=3), dict(size=5)])):
+        base = dict(workers=workers, downloads=dls, t=4, c=2)
+        out.append({'name': f'result-of-first-then-kbd w={workers} sizes={[d["size"] for d in dls]}',
+                    'cfg': dict(base, script='with_result0_kbd'), 'bound': PL})
     # size supplied (no HeadObject), 4 jobs
     out.append({'name': 'expected_size 4 jobs', 'cfg': dict(workers=2, downloads=[dict(size=8, expected_size=8)], t=4, c=2), 'bound': PL})
     return out
